@@ -131,8 +131,9 @@ func (r *chunkRes) mismatch(m mismatch) {
 // classifiedSigs are the signatures of precisely classified input classes (see findings.json); chunks that only show
 // these do not count towards a worker's "stop collecting" threshold.
 var classifiedSigs = map[string]bool{
-	"atomic:misaligned-and-out-of-bounds:trap-kind": true,
-	"reexport:exported-host-import:compiler-panics": true,
+	"atomic:misaligned-and-out-of-bounds:trap-kind":       true,
+	"reexport:exported-host-import:compiler-panics":       true,
+	"tailcall:7-int-params:last-param-clobbered:compiler": true,
 }
 
 // trapClass maps a Call error to a canonical class. Error texts are never compared.
